@@ -1,4 +1,6 @@
 import MidnightZK.Model.C17.Keys
+import MidnightZK.Model.C17.Transcript
+import MidnightZK.Model.C17.Params
 /-! Helper lemmas for the serialisation theorems of C17 (core Lean only). -/
 namespace MidnightZK.C17
 
@@ -186,5 +188,66 @@ theorem readVK_consumes (c : Codec P) (v : UInt8) (fmt : Format) (sh : Shape) {b
                     omega
 
 /-! ### The transcript preimage determines the key -/
+
+/-- A parser inverting `transcriptPreimage` (used only to prove injectivity). -/
+def unparsePre (c : Codec P) (bs : Bytes) : Option (VK P × Bytes) :=
+  match bs with
+  | _ :: kb :: t =>
+    match readExact 4 t with
+    | .error _ => none
+    | .ok (nb, r1) =>
+      match c.readMany .rawBytesUnchecked (ofLe32 nb) r1 with
+      | .error _ => none
+      | .ok (fixed, r2) =>
+        match readExact 4 r2 with
+        | .error _ => none
+        | .ok (mb, r3) =>
+          match c.readMany .rawBytesUnchecked (ofLe32 mb) r3 with
+          | .error _ => none
+          | .ok (perm, r4) => some (⟨kb.toNat, fixed, perm⟩, r4)
+  | _ => none
+
+theorem unparsePre_preimage (c : Codec P) (hc : c.Lawful) (v : UInt8) (vk : VK P) (desc : Bytes)
+    (hk : vk.k < 256) (hf : vk.fixed.length < 2 ^ 32) (hp : vk.perm.length < 2 ^ 32) :
+    unparsePre c (transcriptPreimage c v vk desc) = some (vk, desc) := by
+  have hkb : (byteOf vk.k).toNat = vk.k := by rw [byteOf_toNat]; omega
+  have e3 := readExact_append' 4 (le32 vk.fixed.length)
+    (c.writeMany .rawBytesUnchecked vk.fixed ++ (le32 vk.perm.length ++ (c.writeMany .rawBytesUnchecked vk.perm ++ desc)))
+    (le32_length _)
+  have e4 := readExact_append' 4 (le32 vk.perm.length) (c.writeMany .rawBytesUnchecked vk.perm ++ desc) (le32_length _)
+  have r1 := Codec.readMany_writeMany c hc .rawBytesUnchecked .rawBytesUnchecked rfl vk.fixed
+    (le32 vk.perm.length ++ (c.writeMany .rawBytesUnchecked vk.perm ++ desc))
+  have r2 := Codec.readMany_writeMany c hc .rawBytesUnchecked .rawBytesUnchecked rfl vk.perm desc
+  unfold unparsePre transcriptPreimage
+  simp only [List.cons_append, List.nil_append, List.append_assoc, e3, e4, ofLe32_le32 _ hf,
+    ofLe32_le32 _ hp, r1, r2, hkb]
+
+/-! ### Parameters -/
+
+section
+variable {G1 G2 : Type}
+
+theorem readChunks_writeMany (c : Codec G1) (hc : c.Lawful) : ∀ (ps : List G1) (r : Bytes),
+    readChunks c.plen ps.length (c.writeMany .processed ps ++ r) = .ok (ps.map c.encC, r)
+  | [], r => by simp [readChunks, Codec.writeMany]
+  | p :: ps, r => by
+    have ih := readChunks_writeMany c hc ps r
+    simp only [Codec.writeMany, Codec.enc] at ih
+    simp [readChunks, Codec.writeMany, Codec.enc, List.append_assoc,
+      readExact_append' _ _ _ (hc.lenC p), ih]
+
+theorem decodeAll_enc (c : Codec G1) (hc : c.Lawful) : ∀ ps : List G1, decodeAll c (ps.map c.encC) = .ok ps
+  | [] => rfl
+  | p :: ps => by simp [decodeAll, hc.rtC, decodeAll_enc c hc ps]
+
+theorem readG1Vec_writeMany (c : Codec G1) (hc : c.Lawful) (fa fb : Format) (h : fa.compat fb = true)
+    (ps : List G1) (r : Bytes) : readG1Vec c fb ps.length (c.writeMany fa ps ++ r) = .ok (ps, r) := by
+  cases fb
+  · cases fa <;> simp [Format.compat] at h
+    simp [readG1Vec, readChunks_writeMany c hc, decodeAll_enc c hc]
+  · simp only [readG1Vec]; exact Codec.readMany_writeMany c hc fa _ h ps r
+  · simp only [readG1Vec]; exact Codec.readMany_writeMany c hc fa _ h ps r
+
+end
 
 end MidnightZK.C17
